@@ -38,16 +38,17 @@ WITNESSES = ("WitnessOneHunkOfTwo", "WitnessRenameKeptEditShelved", "WitnessExec
 
 
 def text(f, ra, rb):
-    return ("top %s\nA-%s\n%sB-%s\nend %s\n" % (f, ra, SEP, rb, f)).encode()
+    """two-region text; a local edit of region A also ADDS a line, so hunk offsets matter for later hunks"""
+    return ("top %s\nA-%s\n%s%sB-%s\nend %s\n" % (f, ra, "A-L+\n" if ra == "L" else "", SEP, rb, f)).encode()
 
 
-_rx = re.compile(rb"^top (\S+)\nA-(\w)\n" + re.escape(SEP.encode()) + rb"B-(\w)\nend (\S+)\n$")
+_rx = re.compile(rb"^top (\S+)\nA-(\w)\n(A-L\+\n)?" + re.escape(SEP.encode()) + rb"B-(\w)\nend (\S+)\n$")
 
 
 def tag(b):
     m = _rx.match(b)
-    if m and m.group(1) == m.group(4):
-        return "%s:%s/%s" % (m.group(1).decode(), m.group(2).decode(), m.group(3).decode())
+    if m and m.group(1) == m.group(5) and bool(m.group(3)) == (m.group(2) == b"L"):
+        return "%s:%s/%s" % (m.group(1).decode(), m.group(2).decode(), m.group(4).decode())
     return "X:" + hashlib.sha1(b).hexdigest()[:8]
 
 
